@@ -295,11 +295,13 @@ REVIEWED_SKIP_PREDICATES = {
     'analyses::constructibles::ConstructibleDb::error_observers_cannot_depend_on_fallible_components': {
         'analyses::components::db::ComponentDb::hydrated_component',
         'analyses::components::db::ComponentDb::iter',
+        'analyses::components::db::ComponentDb::lifecycle',
         'analyses::components::db::ComponentDb::scope_graph',
         'analyses::components::db::ComponentDb::scope_id',
         'analyses::user_components::scope_graph::ScopeId::direct_parent_ids',
         'component::constructor::Constructor::input_types',
         'component::error_observer::ErrorObserver::input_types',
+        'core::cmp::PartialEq::eq',
     },
     'analyses::call_graph::dependency_graph::DependencyGraph::assert_acyclic': {
         'core::cmp::PartialEq::eq',
@@ -362,13 +364,15 @@ REVIEWED_SKIP_PREDICATES = {
 _GENERIC_PREDICATES = ('eq', 'ne', 'is_some', 'is_none', 'is_empty', 'is_ok', 'is_err', 'contains', 'contains_key', 'len', 'lt', 'le', 'gt', 'ge',
                        'matches', 'starts_with', 'ends_with')
 
+LOOP_HEAD_CALLS = ('next', 'pop', 'pop_front', 'pop_back', 'next_back')
 
-def skip_predicates(b, mp):
+
+def skip_predicates(b, mp, with_closures=True):
     """{(loop head, switch block): calls feeding the switch} for switches inside a loop of `b` that decide whether a diagnostic
     can still be reached before the next iteration"""
-    NEXT = 'core::iter::traits::iterator::Iterator::next'
     emit = {bb for bb, t in b.calls() if (callee(t) in mp or callee(t) == PUSH or (t.get('res') or '') in mp)}
-    heads = [bb for bb, t in b.calls() if callee(t) == NEXT and bb in b.reachable(b.succ(bb))]
+    # loop heads: `for` loops (Iterator::next) and work-list loops (`while let Some(x) = queue.pop()`)
+    heads = [bb for bb, t in b.calls() if (callee(t) or '').split('::')[-1] in LOOP_HEAD_CALLS and bb in b.reachable(b.succ(bb))]
     out = {}
     defs = Defs(b)
     for H in heads:
@@ -391,7 +395,7 @@ def skip_predicates(b, mp):
                     sl, _ = backward_slice(b, l, defs)
                     cs = {strip_generics(c) for c, _, _ in slice_calls(sl) if c}
                     # closures handed to iterator / Option adaptors on the way: what they call decides too
-                    for _, _, node in sl:
+                    for _, _, node in (sl if with_closures else []):
                         rv = node.get('rv')
                         if rv and rv['k'] == 'agg' and rv.get('ak') == 'closure' and rv.get('def'):
                             for x in b.fb.bodies_of_item(b.crate, b.nroot):
